@@ -232,7 +232,8 @@ class SpecGen:
                 note(False, 0, None, True)
                 continue
             # ---- nested chunked
-            if r < 0.12 + k.p_chunked * 0.5 and depth < 3 and not reached_optional and (not chunked or rng.random() < 0.3):
+            if (r < 0.12 + k.p_chunked * 0.5 and depth < (5 if in_case else 3) and not reached_optional
+                    and (not chunked or rng.random() < (0.6 if in_case else 0.3))):
                 sub, sinfo = self.gen_body(path, depth + 1, True, in_case, used_names, max(1, budget // 2),
                                            array_depth_left, wb)
                 self._wb = wb
